@@ -404,7 +404,12 @@ func (t *wal) runSync() {
 		var err error
 		if t.lastSyncedOffset.Load() != lastAppendedOffset {
 			timer := t.syncLatency.Timer()
-			if err = segment.Flush(); err != nil {
+			if err = segment.Flush(); err != nil && t.isRolledOver(segment) {
+				// The segment was rolled over while we were flushing it: all its
+				// entries were already flushed before it was closed
+				err = nil
+			}
+			if err != nil {
 				t.writeErrors.Inc()
 			} else {
 				timer.Done()
@@ -416,6 +421,12 @@ func (t *wal) runSync() {
 			callback(err)
 		}
 	}
+}
+
+func (t *wal) isRolledOver(segment ReadWriteSegment) bool {
+	t.RLock()
+	defer t.RUnlock()
+	return t.currentSegment != segment
 }
 
 func (t *wal) doSync(callback func(error)) {
